@@ -396,6 +396,20 @@ let handle toks =
       let a = c_msm_inner (ZZ.of_int (int_of_string c)) pts ss (split = "1") in
       let b = c_msm pts ss in
       (if bw_equal a b || (bw_bytes a = bw_bytes b) then "same " else "DIFFERENT ") ^ hex_of_bytes (bw_bytes a)
+  | ["msmxmodel"; _; nb; _; ps; ss] ->
+      (* the model of the whole MultiExp (cost-model choice of window and splits, slices,
+         both completion orders, both first-chunk modes) against sum s_i P_i *)
+      let pts = if ps = "-" then [] else List.map point_of_tok (split_on ',' ps) in
+      let ss = frs_of ss in
+      let nbt = let v = int_of_string nb in if v <= 0 then 16 else v in
+      let b = c_msm pts ss in
+      let same a = bw_equal a b || (bw_bytes a = bw_bytes b) in
+      let run rev split = match c_multi_exp (ZZ.of_int nbt) rev pts ss split with
+        | None -> false | Some a -> same a in
+      let (c, (nsp, np)) = match split_loop (nat_of_int 40) best_c (ZZ.of_int nbt) (ZZ.of_int (List.length pts)) ZZ.one with
+        | Some ((c, nsp), np) -> (c, (nsp, np)) | None -> (ZZ.zero, (ZZ.zero, ZZ.zero)) in
+      (if run false false && run true true && run true false then "same " else "DIFFERENT ")
+      ^ "c=" ^ zdec c ^ " splits=" ^ zdec nsp ^ " per=" ^ zdec np
   | ["part"; c; _; _; ss] ->
       let (packed, small) = partition_scalars (ZZ.of_int (int_of_string c)) (List.map (fun x -> (x : ZZ.t)) (frs_of ss)) in
       let m64 = ZZ.sub (ZZ.shift_left ZZ.one 64) ZZ.one in
